@@ -5,6 +5,12 @@ import (
 	"sort"
 	"strings"
 
+	routev1 "github.com/openshift/api/route/v1"
+	corev1 "k8s.io/api/core/v1"
+	netv1 "k8s.io/api/networking/v1"
+	metav1 "k8s.io/apimachinery/pkg/apis/meta/v1"
+	"k8s.io/apimachinery/pkg/util/intstr"
+
 	"verifsim/job"
 )
 
@@ -100,6 +106,29 @@ func c19Build(seed uint64, cell c19Cell) *c19Case {
 	nw := r.between(2, 4)
 	for k := 0; k < nw; k++ {
 		others = append(others, workloadDoc(r, wl{pick(r, nsNames[:2]), fmt.Sprintf("w%d", k), pick(r, []string{"Deployment", "StatefulSet", "DaemonSet"}), randLabels(r, 1), randContainerPorts(r)}))
+	}
+	if r.chance(1, 3) {
+		// a front door: a service (selecting by label, so every pod is looked at), and in half of these an Ingress or a
+		// Route leading to it. Which component meets a conflict first depends on what else is in the directory.
+		sel := map[string]string{pick(r, labelKeys): pick(r, labelVals)}
+		if r.chance(1, 2) {
+			sel = map[string]string{"app": "a"} // the label the conflicting pods of the podLabels cells carry
+		}
+		others = append(others, toDoc("Service", "alpha", "front", &corev1.Service{TypeMeta: metav1.TypeMeta{APIVersion: "v1", Kind: "Service"},
+			ObjectMeta: metav1.ObjectMeta{Name: "front", Namespace: "alpha"},
+			Spec:       corev1.ServiceSpec{Selector: sel, Ports: []corev1.ServicePort{{Name: "p0", Port: 80, Protocol: corev1.ProtocolTCP, TargetPort: intstr.FromInt32(8080)}}}}))
+		switch r.intn(4) {
+		case 0:
+			pt := netv1.PathTypePrefix
+			others = append(others, toDoc("Ingress", "alpha", "door", &netv1.Ingress{TypeMeta: metav1.TypeMeta{APIVersion: "networking.k8s.io/v1", Kind: "Ingress"},
+				ObjectMeta: metav1.ObjectMeta{Name: "door", Namespace: "alpha"},
+				Spec: netv1.IngressSpec{Rules: []netv1.IngressRule{{Host: "h.example", IngressRuleValue: netv1.IngressRuleValue{HTTP: &netv1.HTTPIngressRuleValue{
+					Paths: []netv1.HTTPIngressPath{{Path: "/", PathType: &pt, Backend: netv1.IngressBackend{Service: &netv1.IngressServiceBackend{Name: "front", Port: netv1.ServiceBackendPort{Number: 80}}}}}}}}}}}))
+		case 1:
+			others = append(others, toDoc("Route", "alpha", "door", &routev1.Route{TypeMeta: metav1.TypeMeta{APIVersion: "route.openshift.io/v1", Kind: "Route"},
+				ObjectMeta: metav1.ObjectMeta{Name: "door", Namespace: "alpha"},
+				Spec:       routev1.RouteSpec{Host: "h.example", To: routev1.RouteTargetReference{Kind: "Service", Name: "front"}}}))
+		}
 	}
 	var group []Doc // the documents among which positions are enumerated
 	var injected Doc
